@@ -243,10 +243,18 @@ def run(ctx: Ctx):
                f"`{u(c)}`: {why}; the post-burn-in average would lag by one step and include the starting point",
                rel, c.lineno, sample=u(c))
     # the chain advances with this step's sample and ratio
-    carry = [n for n in own_nodes(f.node) if isinstance(n, ast.Assign) and isinstance(n.targets[0], ast.Tuple)
-             and [u(t) for t in n.targets[0].elts] == ["last_sample", "last_ratio"]]
-    col.ob("G16", "S5", f"{rel}::{f.qualname}::chain-carries-(sample, ratio)", any(
-        isinstance(n.value, ast.Tuple) and [u(x) for x in n.value.elts] == ["cur_sample", "cur_ratio"] for n in carry),
+    # the chain state carried to the next step: (accept-selected sample, its ratio)
+    okcarry = False
+    if loops and fcalls and isinstance(fcalls[0].args[0], ast.Name):
+        cur = fcalls[0].args[0].id
+        for n in own_nodes(f.node):
+            if isinstance(n, ast.Assign) and isinstance(n.targets[0], ast.Tuple) and isinstance(n.value, ast.Tuple) \
+                    and len(n.value.elts) == 2 and u(n.value.elts[0]) == cur and any(n is x for L in loops for x in ast.walk(L)):
+                # the carried sample variable is the `previous` operand of the where-selection
+                prevs = {u(d.value.args[2]) for d in rdm.defs if d.name == cur and isinstance(d.value, ast.Call)
+                         and call_name(d.value) == "torch.where" and len(d.value.args) == 3}
+                okcarry = u(n.targets[0].elts[0]) in prevs
+    col.ob("G16", "S5", f"{rel}::{f.qualname}::chain-carries-(sample, ratio)", okcarry,
         "the chain state carried to the next step is not (this step's sample, this step's ratio)", rel, f.line)
 
     # ---- S7 sibling agreement: probs<->logits conversions of one distribution use the same parameterisation -------
